@@ -32,7 +32,7 @@ def harness(prop, function, twins=(), bounded=None, tier='quick', clause=None):
 
 
 def _run_one(h, twin, timeout_s):
-    run = core.Run(h.function, timeout_s=timeout_s)
+    run = core.Run(h.function, timeout_s=timeout_s if twin is None else min(timeout_s, 4))
     run.stop_on_failure = twin is not None
     core.RUN = run
     core.reset_fresh()
@@ -75,8 +75,9 @@ def run_harness(args):
     }
     for tw in h.twins:
         r2 = _run_one(h, tw, timeout_s)
-        failed = [o for o in r2.obligations if o.verdict == 'failed']
+        failed = [o for o in r2.obligations if o.verdict != 'discharged']
         rec['twins'].append({'twin': tw, 'status': r2.status, 'error': r2.err,
                              'obligations': len(r2.obligations), 'failed': len(failed),
+                             'refuted': sum(o.verdict == 'failed' for o in failed),
                              'sample': failed[0].name if failed else None})
     return rec
